@@ -1301,19 +1301,37 @@ static void gen_stmt(Node *node) {
     gen_expr(node->cond);
 
     for (Node *n = node->case_next; n; n = n->case_next) {
-      char *ax = (node->cond->ty->size == 8) ? "%rax" : "%eax";
-      char *di = (node->cond->ty->size == 8) ? "%rdi" : "%edi";
+      // Labels are converted to the promoted type of the controlling
+      // expression. 64-bit values do not fit an immediate operand, so
+      // they are compared through a register.
+      if (node->cond->ty->size == 8) {
+        if (n->begin == n->end) {
+          println("  mov $%ld, %%rdi", n->begin);
+          println("  cmp %%rdi, %%rax");
+          println("  je %s", n->label);
+          continue;
+        }
+
+        // [GNU] Case ranges
+        println("  mov $%ld, %%rdx", n->begin);
+        println("  mov %%rax, %%rdi");
+        println("  sub %%rdx, %%rdi");
+        println("  mov $%ld, %%rdx", n->end - n->begin);
+        println("  cmp %%rdx, %%rdi");
+        println("  jbe %s", n->label);
+        continue;
+      }
 
       if (n->begin == n->end) {
-        println("  cmp $%ld, %s", n->begin, ax);
+        println("  cmp $%d, %%eax", (int)n->begin);
         println("  je %s", n->label);
         continue;
       }
 
       // [GNU] Case ranges
-      println("  mov %s, %s", ax, di);
-      println("  sub $%ld, %s", n->begin, di);
-      println("  cmp $%ld, %s", n->end - n->begin, di);
+      println("  mov %%eax, %%edi");
+      println("  sub $%d, %%edi", (int)n->begin);
+      println("  cmp $%d, %%edi", (int)(n->end - n->begin));
       println("  jbe %s", n->label);
     }
 
